@@ -139,6 +139,7 @@ func factsC03(r *Repo) []Fact {
 	// ---- waitOne: guard; num--; ta := <-done; Lock; updateChan; Unlock ----
 	if fd, file := cp.Func("taskManager", "waitOne"); fd == nil || fd.Body == nil {
 		out = append(out, unknownFact("waitOneRefills", "Bool", "false", "compose", "taskManager.waitOne not found"))
+		out = append(out, unknownFact("refillOnErrorPath", "Bool", "false", "compose", "taskManager.waitOne not found"))
 		out = append(out, unknownFact("waitOneCounts", "Bool", "false", "compose", "taskManager.waitOne not found"))
 	} else {
 		rv := c03Recv(fd)
@@ -146,6 +147,7 @@ func factsC03(r *Repo) []Fact {
 		st := c03Stmts(fd.Body)
 		recv, dec, guard := -1, -1, -1
 		nrecv, ndec := 0, 0
+		recvVar := ""
 		for i, s := range st {
 			switch v := s.(type) {
 			case *ast.AssignStmt:
@@ -153,6 +155,9 @@ func factsC03(r *Repo) []Fact {
 					if u, ok := v.Rhs[0].(*ast.UnaryExpr); ok && u.Op == token.ARROW && exprString(u.X) == rv+".done" {
 						recv = i
 						nrecv++
+						if len(v.Lhs) == 1 {
+							recvVar = exprString(v.Lhs[0])
+						}
 					}
 				}
 			case *ast.IncDecStmt:
@@ -168,21 +173,30 @@ func factsC03(r *Repo) []Fact {
 		}
 		if recv < 0 {
 			out = append(out, unknownFact("waitOneRefills", "Bool", "false", where, "no top-level `x := <-"+rv+".done`"))
+			out = append(out, unknownFact("refillOnErrorPath", "Bool", "false", where, "no top-level `x := <-"+rv+".done`"))
 		} else {
 			after := st[recv+1:]
 			lock := c03One(c03CallIdx(after, rv+".mu.Lock()"))
 			upd := c03One(c03CallIdx(after, rv+".updateChan()"))
 			unlock := c03One(c03CallIdx(after, rv+".mu.Unlock()"))
 			ok := nrecv == 1 && lock >= 0 && upd > lock && unlock > upd
-			// nothing may return between the receive and the re-fill
+			// returns between the receive and the re-fill: none at all (the error path re-fills
+			// too), or only under `if <ta>.err != nil` (a task without error still re-fills)
+			anyRet, otherRet := false, false
 			if ok {
 				for _, s := range after[:unlock] {
-					if containsReturn(s) {
-						ok = false
+					if !containsReturn(s) {
+						continue
 					}
+					anyRet = true
+					if is, isIf := s.(*ast.IfStmt); isIf && is.Init == nil && is.Else == nil && recvVar != "" && exprString(is.Cond) == recvVar+".err!=nil" {
+						continue
+					}
+					otherRet = true
 				}
 			}
-			out = append(out, boolFact("waitOneRefills", ok, where+": Lock; updateChan; Unlock after the receive from done, before any return"))
+			out = append(out, boolFact("waitOneRefills", ok && !otherRet, where+": Lock; updateChan; Unlock after the receive from done, before any return of a task without error"))
+			out = append(out, boolFact("refillOnErrorPath", ok && !anyRet, where+": no return at all (in particular not `if ta.err != nil { return }`) between the receive from done and the re-fill"))
 		}
 		out = append(out, boolFact("waitOneCounts", guard == 0 && ndec == 1 && dec > guard && recv > dec,
 			where+": `if num == 0 {return nil,false}`; num--; receive"))
